@@ -44,6 +44,9 @@ int ssw_write_frame(fe_t *fe, mfcc_t *fea)
 
 void r_fe_chunking(void)
 {
+#ifndef NCHUNK
+#define NCHUNK 3
+#endif
     IN_ARR(int, in_chunk, 3); IN_ARR(int, in_lim, 8); IN(int, in_float);
     static fe_t fe; static float32 ovf[FS]; static float32 sf[NS]; static int16 si[NS];
     static mfcc_t cepbuf[4]; static mfcc_t *ceps[4] = { cepbuf, cepbuf, cepbuf, cepbuf };
@@ -51,7 +54,7 @@ void r_fe_chunking(void)
     for (int i = 0; i < NS; i++) { si[i] = (int16)(i + 1); sf[i] = (float32)(i + 1) / 32768.0f; }
     fe.frame_size = FS; fe.frame_shift = SH; fe.overflow_samps = ovf; fe.num_overflow_samps = 0; fe.swap = 0;
     int total = 0, calls = 0;
-    for (int c = 0; c < 3; c++) {
+    for (int c = 0; c < NCHUNK; c++) {
         SSW_ASSUME(0 <= in_chunk[c] && total + in_chunk[c] <= NS);
         float32 *pf = sf + total; int16 *pi = si + total;
         size_t n = (size_t)in_chunk[c];
